@@ -25,7 +25,7 @@ LINE_PASSERS = ('skip_cond_incl', 'include_file')
 
 
 # minimum number of distinct obligations per rule, confirmed by hand on the pinned tree (below: exit 2)
-FLOORS = {'R10.1': 15, 'R10.2': 90, 'R10.3': 14, 'R10.4': 40, 'R10.5': 10, 'R10.6': 45, 'R10.7': 3, 'R10.8': 12}
+FLOORS = {'R10.1': 15, 'R10.2': 90, 'R10.3': 14, 'R10.4': 40, 'R10.5': 10, 'R10.6': 47, 'R10.7': 3, 'R10.8': 15}
 
 
 def _declare_rules(rep):
@@ -53,7 +53,10 @@ def run(P, rep, tier):
                        'nor #if arithmetic (C07).')
     rep.assumptions += ['the rest of the token stream after the analysed directive is arbitrary (cut at skip_line/skip_cond_incl/eval_const_expr/...)',
                         'tokens produced by the tokenizer are newline-terminated lists ending in TK_EOF with at_bol set',
-                        'equal(tok, s) compares the spelling of tok with s', 'calloc succeeds']
+                        'equal(tok, s) compares the spelling of tok with s', 'calloc succeeds',
+                        'the values of -include options are non-NULL strings (parse_args stores argv words)',
+                        'reference for -include lookup and for the order of the fixed system directories: gcc (working directory first, then the include path; '
+                        'own headers, /usr/local/include, multiarch directory, /usr/include)']
     _declare_rules(rep)
     dres = {}
 
@@ -1588,7 +1591,8 @@ def _ev_result(ctx, v):
 def r108(P, u, T, rep, dres):
     rep.rule('R10.8', 'a quoted #include probes the directory of the including file before the include path, an angle-bracket one does not; #include_next continues the '
              'previous search; `#pragma once` is keyed by the path string include_file is later called with; -include files are tokenised in option order in '
-             'front of the main file; -D/-U act in command-line order', floor=FLOORS['R10.8'])
+             'front of the main file, each taken as given (working directory) if it exists there, else from the include path, else diagnosed; '
+             '-D/-U act in command-line order', floor=FLOORS['R10.8'])
     fnline = u.fn('preprocess2').line
     if 'include' not in dres or 'include_next' not in dres:
         rep.undecided('R10.8', '%s:preprocess2:include-arms' % U, 'the #include / #include_next arms of the dispatcher could not be followed')
@@ -1835,6 +1839,104 @@ def _r108_once(P, u, T, rep):
     rep.ob('R10.8', '%s:new_file:records-name' % nu.name, okn, 'new_file does not store the given name as File.name', where='%s:%d' % (nu.name, nf.line))
 
 
+def _same_value(a, b):
+    if a is b:
+        return True
+    if isinstance(a, (Sym, Term, Lin)) and isinstance(b, (Sym, Term, Lin)):
+        return a.key() == b.key()
+    return False
+
+
+def _r108_cc1_lookup(it, res, rep, where):
+    """which file a `-include NAME` option reads (gcc: as `#include "NAME"` at the top of the main file, except that the
+    first place looked at is the working directory, i.e. NAME as given; then the include path; else a diagnostic).
+    Decided per path of cc1 and per option from what the path knows about file_exists(NAME) and
+    search_include_paths(NAME) and from the value handed to the tokeniser -- not from the order of the calls."""
+    K = 'main.c:cc1:include-option/'
+    fails = {}
+    seen = {'as-given': 0, 'from-include-path': 0, 'diagnosed': 0}
+
+    def is_name(v):
+        return isinstance(v, Term) and v.op == 'idx' and len(v.args) == 2 and 'opt_include' in repr(v.args[0])
+
+    for ctx, out in res:
+        o = outcome(out)
+        if o[0] == 'ret':
+            continue
+        names = []      # [name, [probe truths], [search events], tokenised-as]
+
+        def slot(nm):
+            for s in names:
+                if _same_value(s[0], nm):
+                    return s
+            names.append([nm, [], [], None])
+            return names[-1]
+        for e in calls(ctx, ('file_exists', 'search_include_paths', 'must_tokenize_file')):
+            a = settle(it, e[2][0]) if e[2] else None
+            if e[1] == 'file_exists' and is_name(a):
+                slot(a)[1].append(truth_in(it, ctx, e[4]))
+            elif e[1] == 'search_include_paths' and is_name(a):
+                slot(a)[2].append(e)
+            elif e[1] == 'must_tokenize_file':
+                if is_name(a):
+                    slot(a)[3] = 'as-given'
+                else:
+                    sr = _ev_result(ctx, a)
+                    if sr is not None and sr[1] == 'search_include_paths' and sr[2] and is_name(settle(it, sr[2][0])):
+                        slot(settle(it, sr[2][0]))[3] = ('from-include-path', sr)
+        if any(truth_in(it, ctx, s[0]) is False for s in names):
+            continue        # the path assumes that an option value is NULL: parse_args stores argv words only
+        for nm, probes, srch, how in names:
+            exists = True if True in probes else (False if probes and all(p is False for p in probes) else None)
+            founds = [truth_in(it, ctx, e[4]) for e in srch]
+            found = True if True in founds else (False if founds and all(f is False for f in founds) else None)
+            if how == 'as-given':
+                seen['as-given'] += 1 if exists is True else 0
+                if exists is False and found is False:
+                    seen['diagnosed'] += 1      # by must_tokenize_file
+                if exists is not True and (not srch or found is True):
+                    fails.setdefault('falls-back-to-include-path', (
+                        'a `-include NAME` whose NAME %s is read as given%s: a file that is only in an -I/system/-idirafter directory is not found '
+                        '(textual `#include "NAME"` finds it)' % ('does not exist as given' if exists is False else 'was not looked for as given',
+                                                                 ' although the include path has it' if srch else ' and the include path is never searched'), ctx.trail))
+            elif how is not None:
+                sr = how[1]
+                used_found = truth_in(it, ctx, sr[4])
+                if exists is False and used_found is True:
+                    seen['from-include-path'] += 1
+                if exists is not False:
+                    fails.setdefault('working-directory-first', (
+                        '`-include NAME` reads the copy of NAME found on the include path %s: with a file of that name in the working directory and another in an '
+                        '-I/system/-idirafter directory the wrong one is taken, and the token stream differs from textual inclusion at the top of the main file '
+                        '(gcc and `#include "NAME"` in a main file of that directory take the local one)' % (
+                            'although NAME exists as given' if exists is True else 'without having established that NAME does not exist as given (relative to the working directory)'), ctx.trail))
+                if used_found is not True:
+                    fails.setdefault('missing-file-diagnosed', (
+                        '`-include NAME`: the result of search_include_paths is handed to the tokeniser %s (NULL when NAME is nowhere: crash instead of a diagnostic)' % (
+                            'although the search failed' if used_found is False else 'without having been tested'), ctx.trail))
+            elif o[0] == 'error':
+                if exists is not True and not srch:
+                    fails.setdefault('falls-back-to-include-path', (
+                        '`-include NAME` is rejected (%s) when NAME does not exist as given, without the include path having been searched: a file that is only in an '
+                        '-I/system/-idirafter directory is not found (textual `#include "NAME"` finds it)' % o[1], ctx.trail))
+                elif exists is True or found is True:
+                    fails.setdefault('missing-file-diagnosed', ('`-include NAME` is rejected (%s) although NAME %s' % (
+                        o[1], 'exists as given' if exists is True else 'is found on the include path'), ctx.trail))
+                elif exists is False and found is False:
+                    seen['diagnosed'] += 1
+    if not seen['as-given'] or not seen['from-include-path']:
+        if not fails:
+            rep.undecided('R10.8', K + 'lookup', 'could not follow a -include file being taken as given and one being taken from the include path '
+                          '(%s)' % ', '.join('%s: %d' % kv for kv in sorted(seen.items())))
+            return
+    for k in ('working-directory-first', 'falls-back-to-include-path', 'missing-file-diagnosed'):
+        f = fails.get(k)
+        if f is None and k == 'missing-file-diagnosed' and not seen['diagnosed'] and not fails:
+            rep.undecided('R10.8', K + k, 'no path of cc1 on which a -include file that is neither there as given nor on the include path is diagnosed could be followed')
+            continue
+        rep.ob('R10.8', K + k, f is None, f[0] if f else '', where=where, facts={'path': f[1]} if f else None)
+
+
 def _r108_cc1(P, rep):
     mu = P.unit('main.c')
     if 'cc1' not in mu.functions:
@@ -1859,7 +1961,9 @@ def _r108_cc1(P, rep):
                                   'strerror': None, '__errno_location': None}, 'globals': gl, 'loop_limit': 2})
     bad = None
     nmax = 0
-    for ctx, out in it.explore('cc1', lambda ctx: [], max_paths=300):
+    res = it.explore('cc1', lambda ctx: [], max_paths=300)
+    _r108_cc1_lookup(it, res, rep, where)
+    for ctx, out in res:
         o = outcome(out)
         if o[0] != 'resume':
             continue
@@ -1958,7 +2062,8 @@ def _argv(words):
 
 
 def r106(P, rep):
-    rep.rule('R10.6', 'search order and option plumbing: include_paths is filled -I (argv order), then the system directories, then -idirafter; every option in '
+    rep.rule('R10.6', 'search order and option plumbing: include_paths is filled -I (argv order), then the system directories (own headers first, then the fixed '
+             'directories in gcc\'s order), then -idirafter; every option in '
              'take_arg\'s table has a handler that takes the next argument as its value, and every handler that takes the next argument is in the table', floor=FLOORS['R10.6'])
     mu = P.unit('main.c')
     for f in ('parse_args', 'take_arg', 'main', 'add_default_include_paths'):
@@ -2032,6 +2137,51 @@ def r106(P, rep):
     _r106_order(P, mu, rep)
 
 
+# relative order of the fixed system directories as gcc on this target searches them (`gcc -v`: its own header directory,
+# /usr/local/include, the multiarch directory, /usr/include): the more specific directory shadows the general one
+SYSTEM_DIR_ORDER = ('/usr/local/include', '/usr/include/x86_64-linux-gnu', '/usr/include')
+
+
+def _derives_from(ctx, v, word, depth=0):
+    """is value v computed (through recorded calls / format terms) from the command-line word `word`?"""
+    if isinstance(v, str):
+        return v == word
+    if depth > 6:
+        return False
+    if isinstance(v, Term):
+        return any(_derives_from(ctx, a, word, depth + 1) for a in v.args)
+    e = _ev_result(ctx, v)
+    if e is not None:
+        return any(_derives_from(ctx, a, word, depth + 1) for a in e[2])
+    return False
+
+
+def _r106_system_order(ctx, seq, cls, words, rep, where, shown):
+    """inside the block of system directories: the compiler's own header directory (derived from argv[0]) comes first,
+    the fixed directories follow in gcc's order"""
+    sysd = [v for v, c in zip(seq, cls) if c == 'system']
+    own = [i for i, v in enumerate(sysd) if not isinstance(v, str) and _derives_from(ctx, v, words[0])]
+    fixed = [v for v in sysd if isinstance(v, str)]
+    known = [v for v in fixed if v in SYSTEM_DIR_ORDER]
+    if not own or len(known) < 2:
+        rep.undecided('R10.6', 'main.c:main:search-order/system-dirs', 'could not recognise the compiler\'s own header directory and two of the fixed system directories '
+                      'in the search list: %r' % (shown,))
+        return
+    first_fixed = min(i for i, v in enumerate(sysd) if isinstance(v, str))
+    ok = max(own) < first_fixed
+    rep.ob('R10.6', 'main.c:main:search-order/%s' % ('own-headers-before-system-dirs' if ok else 'own-headers-after-system-dir'), ok,
+           'the compiler\'s own header directory (<dir of argv[0]>/include: stddef.h, stdarg.h, stdatomic.h, float.h ... written for this compiler) is searched after the '
+           'system directory %r: a header of the same name there (e.g. another compiler\'s stdarg.h in /usr/local/include) shadows it' % (sysd[first_fixed],),
+           where=where, facts={'include_paths': shown})
+    inv = [(a, b) for a, b in zip(known, known[1:]) if SYSTEM_DIR_ORDER.index(a) > SYSTEM_DIR_ORDER.index(b)]
+    ok = not inv and len(set(known)) == len(known)
+    rep.ob('R10.6', 'main.c:main:search-order/%s' % ('system-dirs-in-order' if ok else ('system-dir-repeated' if not inv else 'system-dir-out-of-order%s' % inv[0][1])), ok,
+           'the fixed system directories are searched in the order %r; gcc searches %r: %s' % (
+               known, list(SYSTEM_DIR_ORDER), ('%r is searched before %r, so a header present in both (or an #include_next chain through them) resolves to the other file'
+                                               % inv[0]) if inv else 'a directory is listed twice (an #include_next chain visits the same file again)'),
+           where=where, facts={'include_paths': shown})
+
+
 def _r106_order(P, mu, rep):
     where = 'main.c:%d' % mu.fn('main').line
 
@@ -2086,6 +2236,7 @@ def _r106_order(P, mu, rep):
                'system header of the same name instead of being a fallback (%r)' % (min(afters), first_sys, last_sys, shown), where=where, facts={'include_paths': shown})
     stray = [v for v, c in zip(seq, cls) if c == 'argv']
     rep.ob('R10.6', 'main.c:main:search-order/only-directories', not stray, 'command-line words that are not include directories end up in the search list: %r' % (stray,), where=where)
+    _r106_system_order(ctx, seq, cls, words, rep, where, shown)
     # -D / -U in argv order
     it = PPInterp(P, mu, _main_cfg(mu=mu))
     res = it.explore('parse_args', lambda ctx: _argv(['chibicc', '-DX', '-UX', '-D', 'X=2', '-U', 'Y', 'x.c']), max_paths=50)
